@@ -14,9 +14,23 @@ ObsTrace(op, args, ret, post) == Logged(ret) = Tr[l].ret
 TraceInit == /\ l = 1 /\ fin = FALSE /\ s = Tr[1].s /\ d = Tr[1].d
              /\ pos = 1 /\ quote = 0 /\ cur = <<>> /\ toks = <<>> /\ intok = FALSE /\ done = FALSE
 
-ScanStep == SkipDelim \/ OpenQuote \/ CloseQuote \/ OtherQuoteLiteral \/ EscapedDelimOrQuote \/ Plain \/ EndToken \/ Finish
+IsScanEvent == Tr[l].op \in {"split", "tok"}
+\* events that are not scans: the word utilities on the logged text, join on a logged token list
+\*   {"op":"words","d":[],"s":[..],"ret":{"n":N,"w":[[..],..],"p":[..]}}      {"op":"join","d":[],"s":[],"toks":[[..],..],"ret":[[..],[..],[..]]}
+PureExpected == IF Tr[l].op = "words"
+                THEN LET nw == NumWords(s) IN [n |-> nw, w |-> [i \in 1 .. nw |-> GetWord(i, s)], p |-> [i \in 1 .. nw |-> GetPWord(i, s)]]
+                ELSE [k \in 1 .. Len(JoinSeps) |-> Join(JoinSeps[k], Tr[l].toks)]
+PureMatches == IF Tr[l].op = "words"
+               THEN LET e == PureExpected r == Tr[l].ret IN r.n = e.n /\ r.w = e.w /\ r.p = e.p
+               ELSE Tr[l].ret = PureExpected
+PureEvent == /\ ~done /\ ~IsScanEvent /\ PureMatches
+             /\ done' = TRUE /\ UNCHANGED <<s, d, pos, quote, cur, toks, intok, l, fin>>
+RejectPure == /\ ~done /\ ~IsScanEvent /\ ~PureMatches
+              /\ PrintT(<<"TRACE_REJECTED_AFTER", l - 1, "OF", Len(Tr)>>)
+              /\ UNCHANGED <<vars, l, fin>>
+ScanStep == IsScanEvent /\ (SkipDelim \/ OpenQuote \/ CloseQuote \/ OtherQuoteLiteral \/ EscapedDelimOrQuote \/ Plain \/ EndToken \/ Finish)
 \* the scan is complete and the logged tokens differ from the reference's: say where, and stop
-RejectCase == /\ ScanNext(d, s, Cur).kind = "Finish" /\ Logged(toks) # Tr[l].ret
+RejectCase == /\ IsScanEvent /\ ScanNext(d, s, Cur).kind = "Finish" /\ Logged(toks) # Tr[l].ret
               /\ PrintT(<<"TRACE_REJECTED_AFTER", l - 1, "OF", Len(Tr)>>)
               /\ UNCHANGED <<vars, l, fin>>
 NextEvent == /\ done /\ l < Len(Tr)
@@ -26,6 +40,7 @@ NextEvent == /\ done /\ l < Len(Tr)
 Accept == /\ done /\ l = Len(Tr) /\ ~fin
           /\ PrintT(<<"TRACE_ACCEPTED", l>>)
           /\ fin' = TRUE /\ UNCHANGED <<vars, l>>
-TraceStep == (ScanStep /\ UNCHANGED <<l, fin>>) \/ RejectCase \/ NextEvent \/ Accept
+TraceStep == (ScanStep /\ UNCHANGED <<l, fin>>) \/ RejectCase \/ PureEvent \/ RejectPure \/ NextEvent \/ Accept
+TracePosInBounds == IsScanEvent => PosInBounds
 TraceSpec == TraceInit /\ [][TraceStep]_<<vars, l, fin>>
 ================================================================================
